@@ -27,13 +27,21 @@ def _rebuild_marked(tag, via):
     return m
 
 
+class LoggingReducer:
+    """reducer for `Marked` that logs every invocation (picklable by reference)."""
+
+    def __init__(self, name):
+        self.name = name
+
+    def __call__(self, obj):
+        cur = rt.RT.sched.cur()
+        REDUCER_LOG.append((self.name, obj.tag, cur.proc.pid if cur else 0, cur.role if cur else "?"))
+        return _rebuild_marked, (obj.tag, self.name)
+
+
 def make_reducers(name):
     """a reducer map that logs every invocation under `name`."""
-    def red(obj, name=name):
-        cur = rt.RT.sched.cur()
-        REDUCER_LOG.append((name, obj.tag, cur.proc.pid if cur else 0, cur.role if cur else "?"))
-        return _rebuild_marked, (obj.tag, name)
-    return {Marked: red}
+    return {Marked: LoggingReducer(name)}
 
 
 def exc_summary(e):
@@ -218,6 +226,7 @@ class Interp:
             f = ex.submit(tasks.call, ts, *extra)
         rec["fut"] = f
         rec["submitted"] = True
+        rec["pickler_after_submit"] = red.get_loky_pickler_name()
         rec["t_submit"] = rt.RT.sched.now
         self.futs[o["f"]] = f
         self.by_thread.setdefault(th, []).append(o["f"])
